@@ -18,6 +18,11 @@ G  (round 5) chromatic parameters x one object used at several wavelengths: Vect
    not first; every step against a fresh object, the closed form at that wavelength
    (out(d) = cos(d/2) out(0) + sin(d/2) out(pi); leak cos^2(d/2)), the nulling clause at the
    design wavelength, and the model's `chromRun` / `vvLeak` / `retarderJones` (op `vvrun`).
+H  (round 6) setter histories that change the KIND of a parameter on one used object (constant <->
+   function of wavelength, Field <-> scalar <-> function, None <-> element, int <-> float) for every
+   assignable coronagraph parameter, each use against the closed form / formula of the CURRENT
+   parameters and a fresh object; the model's `setRun` (op `vvset`).
+   Part F also runs on the real, unpatched Fourier objects (`_MSRealWorld`): their matrices inside the model.
 """
 import math
 import time
@@ -1221,6 +1226,69 @@ class _MSWorld:
             setattr(mod, k, v)
 
 
+def _opmatrix(apply, n_in):
+    cols = []
+    for k in range(n_in):
+        e = np.zeros(n_in, dtype=complex)
+        e[k] = 1
+        cols.append(np.asarray(apply(e), dtype=complex).ravel())
+    return np.array(cols).T
+
+
+class _MSRealWorld:
+    """Round 6: nothing is replaced. The real constructor and the real forward/backward run on hcipy's own
+    FastFourierTransform / MatrixFourierTransform / FourierFilter / FraunhoferPropagator; afterwards the matrices
+    of exactly those operators (level 0: the zero-padded FFT pair FourierFilter builds; level i >= 1: the
+    coronagraph's own FraunhoferPropagator objects; resampling j -> i: MatrixFourierTransform.backward o
+    FastFourierTransform.forward as the constructor composes them) are read off by applying them to unit
+    vectors, and handed to the model as exact rationals. The model then computes the stored masks and
+    forward/backward of the REAL coronagraph on these tiny grids."""
+
+    def __init__(self, n):
+        self.n = n
+        self.grids = []
+        self.F, self.B, self.R = {}, {}, {}
+        self.wavelengths = []
+
+    def patch(self):
+        return []
+
+    @staticmethod
+    def unpatch(saved):
+        pass
+
+    def ops(self, i):
+        return self.F[i], self.B[i]
+
+    def observe(self, pg, grids, props):
+        hp = _hp()
+        self.grids = list(grids)
+        fft0 = hp.FastFourierTransform(pg, 2)
+        if fft0.output_grid.size != grids[0].size:
+            raise RuntimeError('level-0 FFT grid has %d points, the focal mask %d' % (fft0.output_grid.size, grids[0].size))
+        self.F[0] = _opmatrix(lambda e: fft0.forward(hp.Field(e, pg)), pg.size)
+        self.B[0] = _opmatrix(lambda v: fft0.backward(hp.Field(v, fft0.output_grid)), grids[0].size)
+        for i in range(1, len(grids)):
+            prop = props[i]
+            self.F[i] = _opmatrix(lambda e: prop.forward(hp.Wavefront(hp.Field(e, pg), 1)).electric_field, pg.size)
+            self.B[i] = _opmatrix(lambda v: prop.backward(hp.Wavefront(hp.Field(v, grids[i]), 1)).electric_field, grids[i].size)
+        for i in range(len(grids)):
+            for j in range(i):
+                fft = hp.FastFourierTransform(grids[j])
+                mft = hp.MatrixFourierTransform(grids[i], fft.output_grid)
+                self.R[(j, i)] = _opmatrix(lambda v: mft.backward(fft.forward(hp.Field(v, grids[j]))), grids[j].size)
+
+
+MSREAL_CONFIGS = [(2, 2, 2, 4, 'vortex'), (3, 2, 2, 4, 'fqpm'), (2, 2, 2, 8, 'vvc'), (2, 2, 2, 4, 'random'), (3, 2, 2, 8, 'vortex'), (4, 2, 2, 4, 'random'),
+                  (2, 2, 3, 6, 'fqpm'), (2, 4, 2, 4, 'vortex'), (3, 2, 2, 4, 'vvc')]
+
+
+def gen_msreal_case(rng, k):
+    N, W, s, q, kind = MSREAL_CONFIGS[k % len(MSREAL_CONFIGS)]
+    return {'part': 'F', 'real': True, 'N': N, 'w': W, 's': float(s), 'q': float(q), 'kind': kind, 'charge': int(rng.choice([2, 4])),
+            'stop': bool(rng.random() < 0.5), 'seed': int(rng.integers(0, 2 ** 31)), 'wavelengths': [1.0, float(rng.choice([0.5, 2.0, 1.6e-6]))]}
+
+
 MSALG_CONFIGS = [(2, 2, 2, 4), (2, 2, 2, 8), (2, 2, 3, 6), (2, 2, 3, 18), (3, 2, 2, 8), (3, 2, 2, 16), (3, 2, 3, 6), (2, 4, 2, 4),
                  (2, 4, 2, 8), (4, 2, 2, 4), (4, 2, 2, 8), (2, 2, 2, 2), (3, 2, 2, 4)]
 
@@ -1239,7 +1307,8 @@ def run_msalg_case(case):
     N, W, s, q = case['N'], case['w'], case['s'], case['q']
     pg = hp.make_pupil_grid(N)
     n = pg.size
-    world = _MSWorld(case['seed'], n)
+    real = bool(case.get('real'))
+    world = _MSRealWorld(n) if real else _MSWorld(case['seed'], n)
     rng = np.random.default_rng(case['seed'] + 1)
     vvc = case['kind'] == 'vvc'
     comps = [(a, c) for a in range(2) for c in range(2)] if vvc else [None]
@@ -1286,9 +1355,12 @@ def run_msalg_case(case):
             if not np.array_equal(np.asarray(wf.electric_field), E):
                 bad.append(('multiscale input-modified', 'forward changed its input'))
         if vvc:
-            masks_all = [np.asarray(m).copy() for m in c.get_instance_data(pg, None, case['wavelengths'][0]).jones_matrices]
+            inst = c.get_instance_data(pg, None, case['wavelengths'][0])
+            masks_all = [np.asarray(m).copy() for m in inst.jones_matrices]
+            mgrids, mprops = [m.grid for m in inst.jones_matrices], list(inst.props)
         else:
             masks_all = [np.asarray(m).copy() for m in c.focal_masks]
+            mgrids, mprops = [m.grid for m in c.focal_masks], list(c.props)
         # backward through the same object
         Y = rng.integers(-8, 9, n) / 4.0 + 1j * rng.integers(-8, 9, n) / 4.0
         outsb = []
@@ -1304,13 +1376,24 @@ def run_msalg_case(case):
         return None, [('multiscale stand-in raises', '%s on stand-ins raised %s: %s' % (case['kind'], type(e).__name__, str(e)[:100]))]
     finally:
         world.unpatch(saved)
+    if real:
+        try:
+            with warnings.catch_warnings():
+                warnings.simplefilter('ignore')
+                world.observe(pg, mgrids, mprops)
+        except MachineryError:
+            raise
+        except Exception as e:  # noqa
+            # a fault while observing the implementation is a broken correspondence, not a violation
+            return {'unreadable': 'reading the matrices of the real Fourier objects raised %s: %s' % (type(e).__name__, str(e)[:100]), 'parts': [], 'L': 0}, bad
     L = len(masks_all)
     grids = world.grids[:L]
     if any(w != 1.0 for w in world.wavelengths):
         bad.append(('multiscale chromatic-propagator-call', 'a propagator was called at wavelength %r (must be 1 after rescaling)' % sorted(set(world.wavelengths))[:3]))
-    if outs[0].shape != outs[1].shape or np.abs(outs[0] - outs[1]).max() > 0:
+    ctol = TOL * max(1.0, float(np.abs(outs[0]).max())) if real else 0
+    if outs[0].shape != outs[1].shape or np.abs(outs[0] - outs[1]).max() > ctol:
         bad.append(('multiscale chromatic', 'the output field depends on the wavelength'))
-    if outsb[0].shape != outsb[1].shape or np.abs(outsb[0] - outsb[1]).max() > 0:
+    if outsb[0].shape != outsb[1].shape or np.abs(outsb[0] - outsb[1]).max() > (TOL * max(1.0, float(np.abs(outsb[0]).max())) if real else 0):
         bad.append(('multiscale chromatic', 'the output field of backward depends on the wavelength'))
     want_shape = (2, 2, n) if vvc else (n,)
     if outs[0].shape != want_shape or outsb[0].shape != want_shape:
@@ -1465,17 +1548,20 @@ def gen_msteleb(rng):
 
 
 def part_f(ctx):
-    cases = [gen_msalg_case(ctx.rng, k) for k in range(ctx.scale(16, 60))]
+    cases = [gen_msalg_case(ctx.rng, k) for k in range(ctx.scale(16, 60))] + [gen_msreal_case(ctx.rng, k) for k in range(ctx.scale(4, 18))]
     lines, plan = [], []
     for case in cases:
         obs, bad = run_msalg_case(case)
         for key, what in bad:
             ctx.violation(key, what, case)
-        ctx.count('F:kind:' + case['kind'])
+        ctx.count(('F:real-operators:kind:' if case.get('real') else 'F:kind:') + case['kind'])
         ctx.count('F:stop' if case['stop'] else 'F:no-stop')
+        if obs is not None and obs.get('unreadable'):
+            ctx.disagree('C09 real-operators', {'case': {k: case.get(k) for k in ('N', 'w', 's', 'q', 'kind', 'stop', 'seed')}, 'what': obs['unreadable']})
+            continue
         if obs is not None:
             ctx.count('F:levels:%d' % obs['L'])
-            ctx.case({k: case[k] for k in ('N', 'w', 's', 'q', 'kind', 'stop')}, ('F', case['N'], case['w'], case['s'], case['q'], case['kind'], case['stop']) if obs['L'] > 1 else None)
+            ctx.case({k: case.get(k) for k in ('N', 'w', 's', 'q', 'kind', 'stop', 'real')}, ('F', case['N'], case['w'], case['s'], case['q'], case['kind'], case['stop'], bool(case.get('real'))) if obs['L'] > 1 else None)
             for part in obs['parts']:
                 plan.append((case, part, len(lines)))
                 lines.append(part['line'])
@@ -1489,6 +1575,7 @@ def part_f(ctx):
         toks = out[k].split()
         short = {k2: case[k2] for k2 in ('N', 'w', 's', 'q', 'kind', 'stop', 'seed')}
         short['jones_component'] = obs['comp']
+        short['real_operators'] = bool(case.get('real'))
         if toks[0] != 'ok' or len(toks) != 3 + 2 * obs['L']:
             raise MachineryError('model refused msalg: %s' % out[k][:80])
 
@@ -1907,6 +1994,529 @@ def part_g(ctx):
 
 
 # =============================================================================================
+# H. setter histories that change the KIND of a parameter on one object (round 6)
+#
+# One coronagraph object is built with some parameter values and then driven through a generated
+# sequence of events: `use` at a wavelength, or `set` a public parameter (plain attribute + the
+# documented clear_cache(), or the Apodizer.apodization setter of a focal-plane mask / Lyot stop)
+# to a value of possibly ANOTHER KIND (constant <-> function of wavelength, Field <-> scalar <->
+# function of wavelength / of grid, None <-> element, int <-> float). Every use is compared with
+# what the property says for the parameters that are current at that moment.
+
+def _pdelta(spec):
+    v = spec['delta']
+    if v[0] == 'pi':
+        return math.pi
+    if v[0] == 'zero':
+        return 0.0
+    return 2 * math.atan2(v[2] / v[3], v[1] / v[3])
+
+
+def _ret_of(case, spec, wl):
+    if spec['k'] in ('const', 'npconst', 'np0d'):
+        return _pdelta(spec)
+    sub = {'wl0': case['wl0'], 'law': spec['law'], 'slope': spec.get('slope', 0.5), 'table': case.get('table', [])}
+    return _retardance(sub, wl)
+
+
+def _ret_obj(case, spec):
+    if spec['k'] == 'const':
+        return _pdelta(spec)
+    if spec['k'] == 'npconst':
+        return np.float64(_pdelta(spec))
+    if spec['k'] == 'np0d':
+        return np.array(_pdelta(spec))
+    return _as_callable(lambda x: _ret_of(case, spec, x), spec.get('argname', 'wavelength'))
+
+
+def _apod_value(hp, case, spec, grid, base):
+    """(object to hand to Apodizer / the apodization setter, reference function wavelength -> array).
+    `base` = the Field the spec scales (a Lyot stop on the pupil grid, an occulter on the focal grid)."""
+    k = spec['k']
+    wl0 = case['wl0']
+    if k == 'field':
+        arr = np.asarray(base, dtype=float).copy()
+        return hp.Field(arr.copy(), grid), (lambda wl: arr)
+    if k == 'cfield':
+        arr = np.asarray(base, dtype=float) * np.exp(1j * spec['phase'])
+        return hp.Field(arr.copy(), grid), (lambda wl: arr)
+    if k == 'scalar':
+        return spec['v'], (lambda wl: np.full(grid.size, spec['v'], dtype=float))
+    if k == 'fn':
+        g = spec['gain']
+        arr = np.asarray(base, dtype=float).copy()
+        f = lambda wl: hp.Field(arr * (1 + g * (wl / wl0 - 1)), grid)  # noqa: E731
+        return _as_callable(f, spec.get('argname', 'wavelength')), (lambda wl: arr * (1 + g * (wl / wl0 - 1)))
+    if k == 'scalarfn':
+        g = spec['gain']
+        f = lambda wl: spec['v'] * (1 + g * (wl / wl0 - 1))  # noqa: E731
+        return _as_callable(f, spec.get('argname', 'wavelength')), (lambda wl: np.full(grid.size, f(wl), dtype=float))
+    if k == 'gridfn':
+        arr = np.asarray(base, dtype=float).copy()
+        return (lambda grid: hp.Field(arr * spec['v'], grid)), (lambda wl: arr * spec['v'])
+    raise MachineryError('unknown apodisation spec %r' % (k,))
+
+
+def _gen_pspec(rng, not_kind=None):
+    kinds = ['const', 'const', 'npconst', 'np0d', 'fn', 'fn', 'fn']
+    k = str(rng.choice([x for x in kinds if x != not_kind] if rng.random() < 0.8 else kinds))
+    if k == 'fn':
+        return {'k': 'fn', 'law': str(rng.choice(['inverse', 'linear', 'table'])), 'slope': float(rng.choice([0.5, -0.75, 1.0, 0.25])),
+                'argname': str(rng.choice(['wavelength', 'lam', 'wvl', 'w']))}
+    r = rng.random()
+    if r < 0.5:
+        d = ['pi']
+    elif r < 0.6:
+        d = ['zero']
+    else:
+        a, b, c = PYTH[int(rng.integers(0, len(PYTH)))]
+        d = ['pyth', int(a), int(b), int(c)]
+    return {'k': k, 'delta': d}
+
+
+def _gen_sspec(rng, allow_none=True, not_kind=None, focal=False):
+    kinds = ['field', 'field', 'scalar', 'fn', 'scalarfn', 'gridfn'] + (['none'] if allow_none else []) + (['cfield'] if focal else [])
+    k = str(rng.choice([x for x in kinds if x != not_kind] if rng.random() < 0.8 else kinds))
+    spec = {'k': k}
+    if k in ('field', 'fn', 'gridfn', 'cfield'):
+        spec['d'] = float(rng.choice([0.9, 0.95] if not focal else [2.0, 2.5, 3.0]))
+    if k in ('scalar', 'scalarfn'):
+        spec['v'] = float(rng.choice([1.0, 0.0, 0.5, 0.75]))
+    if k == 'gridfn':
+        spec['v'] = float(rng.choice([1.0, 0.5]))
+    if k in ('fn', 'scalarfn'):
+        spec['gain'] = float(rng.choice([1.0, 0.5, -0.5, 2.0]))
+        spec['argname'] = str(rng.choice(['wavelength', 'lam', 'wvl', 'w']))
+    if k == 'cfield':
+        spec['phase'] = float(rng.choice([0.5, 1.0, -0.25]))
+    return spec
+
+
+def _kind_class(spec):
+    return {'const': 'constant', 'npconst': 'constant', 'np0d': 'constant', 'fn': 'function', 'scalarfn': 'function', 'gridfn': 'gridfunction',
+            'field': 'field', 'cfield': 'field', 'scalar': 'scalar', 'none': 'none'}.get(spec['k'], spec['k']) if isinstance(spec, dict) else type(spec).__name__
+
+
+def gen_set_case(rng, kind=None):
+    kind = kind or str(rng.choice(['vvc', 'lyot', 'occulted', 'vortex', 'fqpm'], p=[.4, .2, .15, .15, .1]))
+    wl0 = float(rng.choice([1.0, 1.6e-6, 0.5, 2.0]))
+    case = {'part': 'H', 'kind': kind, 'wl0': wl0, 'seed': int(rng.integers(0, 2**31))}
+    nset = int(rng.integers(1, 4))
+    events = []
+    used_ratios = []
+
+    def uses(lo, hi):
+        for _ in range(int(rng.integers(lo, hi))):
+            r = 1.0 if rng.random() < 0.4 else float(rng.choice(RATIOS))
+            used_ratios.append(r)
+            events.append(['use', r])
+    if kind == 'vvc':
+        case.update({'charge': 2, 'N': int(rng.integers(28, 34)), 'q': 32.0 if rng.random() < 0.5 else 32, 's': 4.0, 'w': 16,
+                     'polarised': bool(rng.random() < 0.3), 'azimuth_deg': int(rng.integers(0, 360)),
+                     'pyth_axis': int(rng.integers(0, len(PYTH))), 'plus': int(rng.integers(0, 2))})
+        cur = {'phase_retardation': _gen_pspec(rng), 'lyot_stop': _gen_sspec(rng)}
+        if rng.random() < 0.5:
+            cur['phase_retardation'] = {'k': 'const', 'delta': ['pi']}       # the default
+        case['init'] = {k: dict(v) for k, v in cur.items()}
+        uses(0, 3)
+        geometry_changed = False
+        for _ in range(nset):
+            r = rng.random()
+            if r < 0.6:
+                cur['phase_retardation'] = _gen_pspec(rng, cur['phase_retardation']['k'])
+                events.append(['set', 'phase_retardation', dict(cur['phase_retardation'])])
+            elif r < 0.85 or geometry_changed:
+                how = 'inner' if (cur['lyot_stop']['k'] != 'none' and rng.random() < 0.5) else 'replace'
+                cur['lyot_stop'] = _gen_sspec(rng, allow_none=(how == 'replace'), not_kind=cur['lyot_stop']['k'])
+                events.append(['set', 'lyot_stop', dict(cur['lyot_stop']), how, bool(rng.random() < 0.5)])
+            else:
+                geometry_changed = True
+                name = str(rng.choice(['charge', 'window_size', 'q']))
+                val = {'charge': 4, 'window_size': 20, 'q': 16 if isinstance(case['q'], float) else 16.0}[name]
+                events.append(['set', name, val])
+            uses(1, 3)
+    elif kind in ('lyot', 'occulted'):
+        case.update({'N': int(rng.integers(8, 17)), 'fq': int(rng.choice([2, 3])), 'airy': int(rng.choice([3, 4, 5]))})
+        cur = {'focal_plane_mask': _gen_sspec(rng, allow_none=False, focal=True), 'lyot_stop': _gen_sspec(rng) if kind == 'lyot' else {'k': 'none'}}
+        case['init'] = {k: dict(v) for k, v in cur.items()}
+        uses(0, 3)
+        for _ in range(nset):
+            if kind == 'occulted' or rng.random() < 0.65:
+                how = 'inner' if rng.random() < 0.5 else 'replace'
+                cur['focal_plane_mask'] = _gen_sspec(rng, allow_none=False, not_kind=cur['focal_plane_mask']['k'], focal=True)
+                events.append(['set', 'focal_plane_mask', dict(cur['focal_plane_mask']), how, False])
+            else:
+                how = 'inner' if (cur['lyot_stop']['k'] != 'none' and rng.random() < 0.5) else 'replace'
+                cur['lyot_stop'] = _gen_sspec(rng, allow_none=(how == 'replace'), not_kind=cur['lyot_stop']['k'])
+                events.append(['set', 'lyot_stop', dict(cur['lyot_stop']), how, False])
+            uses(1, 3)
+    else:
+        case.update({'charge': 2, 'N': int(rng.integers(28, 34)), 'q': 32.0 if kind == 'vortex' else 16.0, 's': 4.0, 'w': 16})
+        cur = {'lyot_stop': _gen_sspec(rng)}
+        case['init'] = {k: dict(v) for k, v in cur.items()}
+        uses(0, 2)
+        for _ in range(nset):
+            how = 'inner' if (cur['lyot_stop']['k'] != 'none' and rng.random() < 0.5) else 'replace'
+            cur['lyot_stop'] = _gen_sspec(rng, allow_none=(how == 'replace'), not_kind=cur['lyot_stop']['k'])
+            events.append(['set', 'lyot_stop', dict(cur['lyot_stop']), how, False])
+            uses(1, 3)
+    case['events'] = events
+    tab = [[1.0, 0, 1, 1]]
+    for r in sorted(set(used_ratios) - {1.0}):
+        a, b, c = PYTH[int(rng.integers(0, len(PYTH)))]
+        if rng.random() < 0.5:
+            a, b = b, a
+        tab.append([r, int(a), int(b), int(c)])
+    case['table'] = tab
+    return case
+
+
+_HW = {'k': 'const', 'delta': ['pi']}
+DIRECTED_H = [
+    # the textbook history: default (achromatic) plate, used broadband, then the chromaticity of the retarder is modelled on the same object
+    {'part': 'H', 'kind': 'vvc', 'wl0': 1.0e-6, 'seed': 1, 'charge': 2, 'N': 32, 'q': 32, 's': 4.0, 'w': 16, 'polarised': False, 'azimuth_deg': 45,
+     'pyth_axis': 0, 'plus': 1, 'init': {'phase_retardation': dict(_HW), 'lyot_stop': {'k': 'field', 'd': 0.9}},
+     'events': [['use', 0.75], ['use', 1.0], ['set', 'phase_retardation', {'k': 'fn', 'law': 'inverse', 'argname': 'wavelength'}], ['use', 1.0], ['use', 1.25]],
+     'table': [[1.0, 0, 1, 1], [0.75, 3, 4, 5], [1.25, 5, 12, 13]]},
+    # the other direction, and a second change of kind; the stop changes kind too
+    {'part': 'H', 'kind': 'vvc', 'wl0': 1.6e-6, 'seed': 2, 'charge': 2, 'N': 30, 'q': 32.0, 's': 4.0, 'w': 16, 'polarised': True, 'azimuth_deg': 200,
+     'pyth_axis': 2, 'plus': 0, 'init': {'phase_retardation': {'k': 'fn', 'law': 'linear', 'slope': 1.0, 'argname': 'lam'}, 'lyot_stop': {'k': 'none'}},
+     'events': [['use', 1.5], ['set', 'phase_retardation', {'k': 'np0d', 'delta': ['pyth', 3, 4, 5]}], ['use', 1.5], ['use', 1.0],
+                ['set', 'lyot_stop', {'k': 'field', 'd': 0.9}, 'replace', True], ['set', 'phase_retardation', {'k': 'fn', 'law': 'table', 'argname': 'w'}], ['use', 1.0],
+                ['set', 'lyot_stop', {'k': 'scalarfn', 'v': 0.5, 'gain': 1.0, 'argname': 'wvl'}, 'inner', False], ['use', 1.5]],
+     'table': [[1.0, 0, 1, 1], [1.5, 8, 15, 17]]},
+    {'part': 'H', 'kind': 'lyot', 'wl0': 1.6e-6, 'seed': 3, 'N': 12, 'fq': 3, 'airy': 4,
+     'init': {'focal_plane_mask': {'k': 'field', 'd': 2.5}, 'lyot_stop': {'k': 'field', 'd': 0.9}},
+     'events': [['use', 1.0], ['set', 'focal_plane_mask', {'k': 'fn', 'd': 2.5, 'gain': 1.0, 'argname': 'wavelength'}, 'inner', False], ['use', 1.0], ['use', 1.375],
+                ['set', 'focal_plane_mask', {'k': 'scalar', 'v': 1.0}, 'replace', False], ['use', 1.375],
+                ['set', 'lyot_stop', {'k': 'scalar', 'v': 0.5}, 'inner', False], ['use', 1.0]], 'table': []},
+    {'part': 'H', 'kind': 'occulted', 'wl0': 1.0, 'seed': 4, 'N': 10, 'fq': 2, 'airy': 4,
+     'init': {'focal_plane_mask': {'k': 'scalarfn', 'v': 1.0, 'gain': 1.0, 'argname': 'w'}, 'lyot_stop': {'k': 'none'}},
+     'events': [['use', 2.0], ['set', 'focal_plane_mask', {'k': 'scalar', 'v': 0.0}, 'inner', False], ['use', 2.0],
+                ['set', 'focal_plane_mask', {'k': 'gridfn', 'd': 2.0, 'v': 0.5}, 'inner', False], ['use', 0.5], ['use', 2.0]], 'table': []},
+    {'part': 'H', 'kind': 'vortex', 'wl0': 1.6e-6, 'seed': 5, 'charge': 2, 'N': 32, 'q': 32.0, 's': 4.0, 'w': 16,
+     'init': {'lyot_stop': {'k': 'none'}},
+     'events': [['use', 1.25], ['set', 'lyot_stop', {'k': 'field', 'd': 0.95}, 'replace', False], ['use', 1.25],
+                ['set', 'lyot_stop', {'k': 'fn', 'd': 0.95, 'gain': 0.5, 'argname': 'lam'}, 'inner', False], ['use', 1.0], ['use', 1.25]], 'table': []},
+]
+
+
+def run_set_case(case):
+    hp = _hp()
+    bad, obs = [], {'steps': []}
+    kind, wl0 = case['kind'], case['wl0']
+    rng = np.random.default_rng(case['seed'])
+    hist = 'history %s' % (_show_events(case),)
+    try:
+        with warnings.catch_warnings():
+            warnings.simplefilter('ignore')
+            N = case['N']
+            pg = hp.make_pupil_grid(N)
+            stop_base = lambda d: hp.evaluate_supersampled(hp.make_circular_aperture(d), pg, 4)  # noqa: E731
+
+            def stop_pair(spec):
+                """(OpticalElement or None, wavelength -> array or None)"""
+                if spec['k'] == 'none':
+                    return None, None, None
+                val, ref = _apod_value(hp, case, spec, pg, stop_base(spec.get('d', 1.0)) if 'd' in spec else None)
+                return hp.Apodizer(val), ref, val
+
+            def apply_stop_set(coro, ev, cur):
+                spec, how = ev[2], ev[3]
+                if how == 'inner':
+                    _, ref, val = stop_pair(spec)
+                    coro.lyot_stop.apodization = val
+                else:
+                    el, ref, _ = stop_pair(spec)
+                    coro.lyot_stop = el
+                if len(ev) > 4 and ev[4] and hasattr(coro, 'clear_cache'):
+                    coro.clear_cache()
+                cur['lyot_stop'] = spec
+                return ref
+
+            cur = {k: dict(v) for k, v in case['init'].items()}
+            if kind in ('vvc', 'vortex', 'fqpm'):
+                ap = hp.evaluate_supersampled(hp.make_circular_aperture(1), pg, 4)
+                E_on = hp.Field(np.asarray(ap, dtype=complex), pg)
+                a = math.radians(33 if kind == 'fqpm' else case.get('azimuth_deg', 30))
+                E_off = hp.Field(np.asarray(ap * np.exp(2j * np.pi * 10 * (pg.x * math.cos(a) + pg.y * math.sin(a))), dtype=complex), pg)
+                stokes = (1, 0.3, -0.2, 0.1) if case.get('polarised') else None
+                geo = {'charge': case['charge'], 'q': case['q'], 'scaling_factor': case['s'], 'window_size': case['w']}
+
+                def make(stop_el, pr=None):
+                    kw = dict(q=geo['q'], scaling_factor=geo['scaling_factor'], window_size=geo['window_size'])
+                    if kind == 'vvc':
+                        return hp.VectorVortexCoronagraph(geo['charge'], stop_el, phase_retardation=pr, **kw)
+                    if kind == 'vortex':
+                        return hp.VortexCoronagraph(pg, geo['charge'], stop_el, **kw)
+                    return hp.FQPMCoronagraph(pg, stop_el, **kw)
+                name = {'vvc': 'vector vortex', 'vortex': 'vortex charge 2', 'fqpm': 'fqpm'}[kind]
+                el0, stop_ref, _ = stop_pair(cur['lyot_stop'])
+                used = make(el0, _ret_obj(case, cur['phase_retardation']) if kind == 'vvc' else None)
+                w1 = hp.Wavefront(E_on, 1.0, input_stokes_vector=stokes)
+                pin = float(w1.total_power)
+                refs = {}
+
+                def references():
+                    key = (geo['charge'], float(geo['q']), geo['scaling_factor'], geo['window_size'])
+                    if key not in refs:
+                        if kind == 'vvc':
+                            r0 = make(None, 0.0).forward(w1)
+                            r1 = make(None, math.pi).forward(w1)
+                            refs[key] = (r0, r0.electric_field, r1.electric_field)
+                        else:
+                            r0 = make(None).forward(w1)
+                            refs[key] = (r0, r0.electric_field, None)
+                    return refs[key]
+
+                def power(tmpl, F):
+                    t = tmpl.copy()
+                    t.electric_field = F
+                    return float(t.total_power)
+                fresh_due, fresh_done = False, False
+                nuse = sum(1 for ev in case['events'] if ev[0] == 'use')
+                iuse = 0
+                for k, ev in enumerate(case['events']):
+                    if ev[0] == 'set':
+                        if ev[1] == 'lyot_stop':
+                            stop_ref = apply_stop_set(used, ev, cur)
+                        elif ev[1] == 'phase_retardation':
+                            cur['phase_retardation'] = ev[2]
+                            used.phase_retardation = _ret_obj(case, ev[2])
+                            used.clear_cache()
+                        else:
+                            geo[ev[1]] = ev[2]
+                            setattr(used, ev[1], ev[2])
+                            used.clear_cache()
+                        fresh_due = True
+                        continue
+                    iuse += 1
+                    wl = ev[1] * wl0
+                    wf = hp.Wavefront(E_on.copy(), wl, input_stokes_vector=stokes)
+                    before = np.asarray(wf.electric_field).copy()
+                    out = used.forward(wf)
+                    on = float(out.total_power / wf.total_power)
+                    tmpl, o0, o1 = references()
+                    sarr = stop_ref(wl) if stop_ref is not None else 1.0
+                    step = {'wl': wl, 'on': on, 'event': k}
+                    what = '%s, N=%d, %s: event %d (use at wavelength %g)' % (name, N, hist, k, wl)
+                    if out.wavelength != wl or wf.wavelength != wl or not np.array_equal(np.asarray(wf.electric_field), before):
+                        bad.append(('setter wavelength-bookkeeping', '%s changed its input or carries wavelength %r' % (what, out.wavelength)))
+                    if kind == 'vvc':
+                        delta = _ret_of(case, cur['phase_retardation'], wl)
+                        ch, sh = math.cos(delta / 2), math.sin(delta / 2)
+                        want = (ch * o0 + sh * o1) * sarr
+                        P0, P1 = power(tmpl, o0 * sarr), power(tmpl, o1 * sarr)
+                        X = (power(tmpl, (o0 + o1) * sarr) - P0 - P1) / 2
+                        step.update({'ch': ch, 'sh': sh, 'delta': delta, 'P0': P0 / pin, 'P1': P1 / pin, 'X': X / pin})
+                        halfwave = abs(ch) < 1e-12
+                    else:
+                        want = o0 * sarr
+                        halfwave = True
+                    d, sc = _fdiff(out.electric_field, want)
+                    if not d <= TOL * sc:
+                        bad.append(('%s setter closed-form' % kind, '%s: output differs from [current stop] x (cos(d/2) out(0) + sin(d/2) out(pi)) of the current parameters '
+                                    '(retardation %s, stop %s) by %.3g; on-axis transmission %.4g' % (what, _kind_class(cur.get('phase_retardation', {'k': '-'})), cur['lyot_stop']['k'], d, on)))
+                    if fresh_due or (iuse == nuse and not fresh_done):
+                        fresh_due, fresh_done = False, True
+                        el, _, _ = stop_pair(cur['lyot_stop'])
+                        fr = make(el, _ret_obj(case, cur['phase_retardation']) if kind == 'vvc' else None).forward(hp.Wavefront(E_on.copy(), wl, input_stokes_vector=stokes))
+                        d, sc = _fdiff(out.electric_field, fr.electric_field)
+                        step['fresh'] = True
+                        if not d <= TOL * sc:
+                            bad.append(('%s setter history' % kind, '%s: the re-assigned object differs from a fresh object constructed with the current parameters by %.3g '
+                                        '(on-axis transmission %.4g, fresh %.4g)' % (what, d, on, float(fr.total_power / wf.total_power))))
+                    undersized = cur['lyot_stop']['k'] == 'field' and geo['charge'] == 2 and float(geo['q']) >= (32 if kind != 'fqpm' else 16) and N >= 32
+                    if halfwave and undersized:
+                        step['nulling'] = True
+                        if not on < 0.01:
+                            bad.append(('%s setter on-axis' % kind, '%s: the current plate is half wave here, on-axis transmission %.4g >= 1%%' % (what, on)))
+                        wf2 = hp.Wavefront(E_off, wl, input_stokes_vector=stokes)
+                        off = float(used.forward(wf2).total_power / wf2.total_power)
+                        if not off > 0.5:
+                            bad.append(('%s setter off-axis' % kind, '%s: transmission at 10 lambda/D %.4g <= 50%%' % (what, off)))
+                    obs['steps'].append(step)
+            elif kind in ('lyot', 'occulted'):
+                fg = hp.make_focal_grid(case['fq'], case['airy'], spatial_resolution=wl0)
+                ap = hp.make_circular_aperture(1)(pg)
+                E = hp.Field(np.asarray(ap, dtype=complex) * (1 + 0.25 * rng.standard_normal(pg.size) + 0.25j * rng.standard_normal(pg.size)), pg)
+                occ_base = lambda d: 1 - 0.75 * np.asarray(hp.make_circular_aperture(2 * d * wl0)(fg))  # noqa: E731
+
+                def mask_pair(spec):
+                    val, ref = _apod_value(hp, case, spec, fg, occ_base(spec['d']) if 'd' in spec else None)
+                    return hp.Apodizer(val), ref, val
+                fpm0, mask_ref, _ = mask_pair(cur['focal_plane_mask'])
+                el0, stop_ref, _ = stop_pair(cur['lyot_stop'])
+
+                def make(fpm, stop_el):
+                    if kind == 'lyot':
+                        return hp.LyotCoronagraph(pg, fpm, stop_el, focal_plane_mask_grid=fg)
+                    return hp.OccultedLyotCoronagraph(pg, fpm, focal_plane_mask_grid=fg)
+                name = '%s coronagraph' % kind
+                used = make(fpm0, el0)
+                prop = hp.FraunhoferPropagator(pg, fg)
+                for k, ev in enumerate(case['events']):
+                    if ev[0] == 'set':
+                        if ev[1] == 'lyot_stop':
+                            stop_ref = apply_stop_set(used, ev, cur)
+                        else:
+                            el, mask_ref, val = mask_pair(ev[2])
+                            if ev[3] == 'inner':
+                                used.focal_plane_mask.apodization = val
+                            else:
+                                used.focal_plane_mask = el
+                            cur['focal_plane_mask'] = ev[2]
+                        continue
+                    wl = ev[1] * wl0
+                    wf = hp.Wavefront(E.copy(), wl)
+                    out = used.forward(wf)
+                    m = np.asarray(mask_ref(wl))
+                    sarr = stop_ref(wl) if stop_ref is not None else 1.0
+                    foc = prop.forward(hp.Wavefront(E.copy(), wl))
+                    if kind == 'lyot':
+                        foc.electric_field = foc.electric_field * (1 - m)
+                        ref = (np.asarray(E) - np.asarray(prop.backward(foc).electric_field)) * sarr
+                    else:
+                        foc.electric_field = foc.electric_field * m
+                        ref = np.asarray(prop.backward(foc).electric_field)
+                    what = '%s, N=%d, %s: event %d (use at wavelength %g; mask %s, stop %s)' % (name, N, hist, k, wl, cur['focal_plane_mask']['k'], cur['lyot_stop']['k'])
+                    d, sc = _fdiff(out.electric_field, ref)
+                    if not d <= TOL * sc:
+                        bad.append(('%s setter formula' % kind, '%s: forward differs from the formula with the current mask and stop at this wavelength by %.3g' % (what, d)))
+                    fel, _, _ = mask_pair(cur['focal_plane_mask'])
+                    sel, _, _ = stop_pair(cur['lyot_stop'])
+                    fr = make(fel, sel).forward(hp.Wavefront(E.copy(), wl))
+                    d, sc = _fdiff(out.electric_field, fr.electric_field)
+                    if not d <= TOL * sc:
+                        bad.append(('%s setter history' % kind, '%s: the re-assigned object differs from a fresh object constructed with the current parameters by %.3g' % (what, d)))
+                    if not np.array_equal(np.asarray(wf.electric_field), np.asarray(E)) or wf.wavelength != wl or out.wavelength != wl:
+                        bad.append(('setter wavelength-bookkeeping', '%s changed its input or the wavelength' % what))
+                    if float(np.abs(m - 1).max()) == 0.0 and kind == 'lyot':
+                        d, sc = _fdiff(out.electric_field, np.asarray(E) * sarr)
+                        if not d <= TOL * sc:
+                            bad.append(('lyot setter transparent', '%s: the current mask is fully transmissive, output differs from stop x input by %.3g' % (what, d)))
+                    if float(np.abs(m).max()) == 0.0 and kind == 'occulted':
+                        d, sc = _fdiff(out.electric_field, np.zeros(pg.size))
+                        if not d <= TOL * sc:
+                            bad.append(('occulted setter opaque', '%s: the current mask is fully opaque, output differs from zero by %.3g' % (what, d)))
+                    obs['steps'].append({'wl': wl, 'power': float(out.total_power), 'event': k})
+            else:
+                raise MachineryError('unknown kind')
+    except MachineryError:
+        raise
+    except Exception as e:  # noqa
+        bad.append(('%s setter raises' % kind, '%s coronagraph, %s: raised %s: %s' % (kind, hist, type(e).__name__, str(e)[:100])))
+        obs = None
+    return obs, bad
+
+
+def _show_events(case):
+    def sp(s):
+        if not isinstance(s, dict):
+            return repr(s)
+        return s['k'] + ('(' + s['law'] + ')' if 'law' in s else '')
+    parts = ['init ' + ', '.join('%s=%s' % (k, sp(v)) for k, v in case['init'].items())]
+    for ev in case['events']:
+        parts.append('use %g' % ev[1] if ev[0] == 'use' else 'set %s=%s%s' % (ev[1], sp(ev[2]), ('/' + ev[3]) if len(ev) > 3 else ''))
+    return '[' + '; '.join(parts) + ']'
+
+
+def vvset_line(case, obs):
+    """the event list of a vector-vortex case for the model: assignments of phase_retardation are `set` events; any
+    other assignment + clear_cache() is a `set` of the unchanged parameter (the cache is emptied)"""
+    a, b, c = PYTH[case['pyth_axis']]
+    wls = sorted(set([st['wl'] for st in obs['steps']] + [1.0]))
+
+    def ptoks(spec):
+        if spec['k'] != 'fn':
+            d = _pdelta(spec)
+            return ['const', rat(math.cos(d / 2)), rat(math.sin(d / 2))]
+        chs, shs = [], []
+        for w in wls:
+            try:
+                d = _ret_of(case, spec, w)
+                chs.append(math.cos(d / 2))
+                shs.append(math.sin(d / 2))
+            except KeyError:
+                chs.append(1.0)
+                shs.append(0.0)
+        return ['fn', rat_list(wls), rat_list(chs), rat_list(shs)]
+    cur = case['init']['phase_retardation']
+    toks = ptoks(cur)
+    for ev in case['events']:
+        if ev[0] == 'use':
+            toks += ['use', rat(ev[1] * case['wl0'])]
+        elif ev[1] == 'phase_retardation':
+            cur = ev[2]
+            toks += ptoks(cur)
+        elif ev[1] != 'lyot_stop' or (len(ev) > 4 and ev[4]):
+            toks += ptoks(cur)
+    return 'C09 vvset %s %s %d 1 %s' % (rat(Fraction(a, c)), rat(Fraction(b, c)), case['plus'], ' '.join(toks))
+
+
+def check_vvset(ctx, case, obs, resp):
+    toks = resp.split()
+    short = {'kind': case['kind'], 'N': case['N'], 'events': _show_events(case)}
+    if toks[0] != 'ok' or len(toks) != 6:
+        ctx.disagree('C09 vvset', {'case': short, 'model': resp[:120]})
+        return
+    leak, frozen, noclear, mch, msh = [[float(v) for v in parse_rat_list(t)] for t in toks[1:6]]
+    if len(leak) != len(obs['steps']):
+        ctx.disagree('C09 vvset', {'case': short, 'model_uses': len(leak), 'real_uses': len(obs['steps'])})
+        return
+    for k, st in enumerate(obs['steps']):
+        ctx.traces_validated += 1
+        # measured on-axis transmission of the real re-assigned object at this use against the model's leak fraction
+        want = leak[k] * st['P0'] + (1 - leak[k]) * st['P1'] + 2 * mch[k] * msh[k] * st['X']
+        if not abs(st['on'] - want) <= TOL * max(1.0, abs(want)):
+            ctx.disagree('C09 vvset leak', {'case': short, 'event': st['event'], 'wavelength': st['wl'], 'measured_on_axis': st['on'], 'model': want,
+                                            'model_leak_fraction': leak[k], 'model_leak_if_kind_were_frozen_at_construction': frozen[k],
+                                            'model_leak_if_setter_did_not_clear': noclear[k]})
+
+
+def part_h(ctx):
+    cases = [dict(c) for c in DIRECTED_H]
+    for k in range(ctx.scale(14, 120)):
+        cases.append(gen_set_case(ctx.rng))
+    lines, plan = [], []
+    t0 = time.time()
+    budget = ctx.scale(15, 150)
+    for case in cases:
+        if case['kind'] in ('vvc', 'vortex', 'fqpm') and time.time() - t0 > budget:
+            ctx.count('H:skipped-for-time')
+            continue
+        obs, bad = run_set_case(case)
+        for key, what in bad:
+            ctx.violation(key, what, case)
+        ctx.count('H:kind:' + case['kind'])
+        curk = {k: _kind_class(v) for k, v in case['init'].items()}
+        changed, used_after = False, False
+        for ev in case['events']:
+            if ev[0] == 'use':
+                used_after = used_after or changed
+                continue
+            ctx.count('H:param:%s.%s' % (case['kind'], ev[1]))
+            new = _kind_class(ev[2])
+            old = curk.get(ev[1], type(case.get({'window_size': 'w'}.get(ev[1], ev[1]))).__name__)
+            ctx.count('H:kind-change:%s->%s' % (old, new))
+            if len(ev) > 3:
+                ctx.count('H:how:' + ev[3])
+            changed = changed or (old != new)
+            curk[ev[1]] = new
+        ctx.count('H:events:%d' % len(case['events']))
+        ctx.count('H:use-after-kind-change:%s' % used_after)
+        ctx.case({'kind': case['kind'], 'N': case['N'], 'events': _show_events(case)},
+                 ('H', case['kind'], case['N'], case['wl0'], _show_events(case)) if used_after else None)
+        if obs is not None and case['kind'] == 'vvc' and obs['steps']:
+            plan.append((case, obs))
+            lines.append(vvset_line(case, obs))
+    if lines:
+        out = ctx.model(lines)
+        for (case, obs), resp in zip(plan, out):
+            check_vvset(ctx, case, obs, resp)
+
+
+# =============================================================================================
 
 def run(ctx):
     ctx.rule = ('A: every order on a range, mode and coefficient counts against the model and against h(h+1)/2. '
@@ -1946,13 +2556,21 @@ def run(ctx):
         'leakage is measured for N >= 32 pixels across the pupil (10 lambda/D must stay below the pupil Nyquist frequency) and q at least the '
         'documented minimum for the charge',
     ]
-    part_a(ctx)
-    part_b(ctx)
-    part_c(ctx)
-    part_f(ctx)
-    part_g(ctx)
-    geo = part_e(ctx)
-    part_d(ctx, geo)
+    walls = ctx.extra.setdefault('part_wall_s', {})
+
+    def timed(name, f, *a):
+        t0 = time.time()
+        r = f(*a)
+        walls[name] = round(time.time() - t0, 2)
+        return r
+    timed('A', part_a, ctx)
+    timed('B', part_b, ctx)
+    timed('C', part_c, ctx)
+    timed('F', part_f, ctx)
+    timed('G', part_g, ctx)
+    timed('H', part_h, ctx)
+    geo = timed('E', part_e, ctx)
+    timed('D', part_d, ctx, geo)
 
 
 def replay(ctx, case):
@@ -1973,6 +2591,8 @@ def replay(ctx, case):
         _, bad = run_msalg_case(case)
     elif part == 'G':
         _, bad = run_chrom_case(case)
+    elif part == 'H':
+        _, bad = run_set_case(case)
     else:
         raise MachineryError('unknown replay case')
     for key, what in bad:
